@@ -890,28 +890,42 @@ func (v Value) toReflectValue(typ reflect.Type) (reflect.Value, error) {
 	case reflect.String: // String
 		return reflect.ValueOf(v.string()).Convert(typ), nil
 	case reflect.Invalid: // Invalid
-	case reflect.Complex64: // FIXME? Complex64
-	case reflect.Complex128: // FIXME? Complex128
-	case reflect.Chan: // FIXME? Chan
-	case reflect.Func: // FIXME? Func
-	case reflect.Ptr: // FIXME? Ptr
-	case reflect.UnsafePointer: // FIXME? UnsafePointer
 	default:
+		// every other kind (pointers, functions, structs, slices, maps, interfaces, ...):
+		// the Go value behind a bridged object, nil for undefined and null, or a
+		// value of exactly the wanted type; anything else is a TypeError for the
+		// script, never a reflect panic for the host
+		assignable := func(rv reflect.Value) (reflect.Value, error) {
+			if !rv.IsValid() {
+				return reflect.Zero(typ), nil
+			}
+			if rv.Type().AssignableTo(typ) {
+				return rv, nil
+			}
+			err := fmt.Errorf("TypeError: cannot use a value of type %v as %v", rv.Type(), typ)
+			switch typ.Kind() {
+			case reflect.Ptr, reflect.Func, reflect.Chan, reflect.UnsafePointer, reflect.Complex64, reflect.Complex128:
+				// these kinds have always been answered with a panic; it is now
+				// one a script can catch and the API boundary returns as an error
+				panic(reflectConversionError(err))
+			}
+			return reflect.Value{}, err
+		}
 		switch v.kind {
 		case valueObject:
 			obj := v.object()
 			switch vl := obj.value.(type) {
 			case *goStructObject: // Struct
-				return reflect.ValueOf(vl.value.Interface()), nil
+				return assignable(reflect.ValueOf(vl.value.Interface()))
 			case *goMapObject: // Map
-				return reflect.ValueOf(vl.value.Interface()), nil
+				return assignable(reflect.ValueOf(vl.value.Interface()))
 			case *goArrayObject: // Array
-				return reflect.ValueOf(vl.value.Interface()), nil
+				return assignable(reflect.ValueOf(vl.value.Interface()))
 			case *goSliceObject: // Slice
-				return reflect.ValueOf(vl.value.Interface()), nil
+				return assignable(reflect.ValueOf(vl.value.Interface()))
 			}
 			exported := reflect.ValueOf(v.export())
-			if exported.Type().ConvertibleTo(typ) {
+			if exported.IsValid() && exported.Type().ConvertibleTo(typ) {
 				return exported.Convert(typ), nil
 			}
 			return reflect.Value{}, fmt.Errorf("TypeError: could not convert %v to reflect.Type: %v", exported, typ)
@@ -922,7 +936,7 @@ func (v Value) toReflectValue(typ reflect.Type) (reflect.Value, error) {
 				// undefined / null: the zero value (nil for interfaces), not an invalid reflect.Value
 				return reflect.Zero(typ), nil
 			}
-			return reflect.ValueOf(v.value), nil
+			return assignable(reflect.ValueOf(v.value))
 		}
 	}
 
